@@ -18,9 +18,9 @@ PROP = {'level': 'proof',
           'what Miri sees on the sampled inputs, the repr(C) cast in ArrayBuilder::build, union transmutes, '
           'the cstr pointer walk (relies on CStr\'s invariant), ptr::is_null/nonnull on dangling pointers, drop '
           'glue; array macros / ArrayBuilder / ArrayConsumer init counters are C11/C15\'s theorems.',
- 'sources': [('harness', 'c01'), ('programs', 'c01'), ('harness', 'c15'), ('programs', 'c15')],
+ 'sources': [('harness', 'c01'), ('programs', 'c01'), ('harness', 'c15'), ('programs', 'c15'), ('harness', 'c11'), ('programs', 'c11')],
  'exhaustive': True,
- 'rule': 'Also runs the C15 drop-ledger histories of ArrayConsumer/ArrayBuilder (a double drop or a drop of a never-written slot is UB). Exhaustive small scopes: every slice length 0..=L (L=6 quick, 10 thorough) x every index / index '
+ 'rule': 'Also runs the C15 drop-ledger histories of ArrayConsumer/ArrayBuilder (a double drop or a drop of a never-written slot is UB) and the C11 array-macro rows (closures that break/continue/return/panic at every index: an array handed back after fewer than N writes is a read of uninitialised memory; added after seeded change C01-r4-1). Exhaustive small scopes: every slice length 0..=L (L=6 quick, 10 thorough) x every index / index '
          'pair from 0..=len+2 plus isize::MAX, isize::MAX+1, usize::MAX-1, usize::MAX x every slice function '
          '(shared and _mut, as_chunks/as_rchunks/array_chunks/try_into_array with N in 0..=4) x element types '
          'u8, u32, (), String; every string over {a, n-tilde, euro, emoji} (1-4 byte chars) with <= 4 chars '
